@@ -29,7 +29,7 @@ func init() {
 }
 
 func ruleR19_1(p *Program, r *Report) {
-	r.Expect("R19.1", 3)
+	r.Expect("R19.1", 2) // one per constructor; duplicate switch arms may be merged
 	nd := p.Func(deflRel, "NewDynCompressor")
 	if nd == nil {
 		r.Undecided("R19.1", "anchor:NewDynCompressor", "-", "constructor exists", "not found")
